@@ -123,6 +123,22 @@ func genC15(tier string, rng *rand.Rand, shard, nshards int, emit emitter) {
 			}
 		}
 	}
+	// a client that sends early: many short requests delivered by one read (up to the 25 that fill the 300-byte read
+	// buffer exactly), by two reads, and 25 followed by more
+	for i, k := range []int{15, 16, 17, 18, 20, 23, 24, 25, 26, 33, 50} {
+		if !mine(i, shard, nshards) {
+			continue
+		}
+		stream := []byte{}
+		for j := 0; j < k; j++ {
+			stream = append(stream, mbapFrame(tidv(rng), u8(rng), validRequestPDU(rng, []int{1, 2, 3, 4, 5, 6}[rng.Intn(6)]))...)
+		}
+		for _, h := range []string{"dev", "typed", "generic"} {
+			emit(fmt.Sprintf("asm %s %s", h, chunksToken(segment(stream, nil))))
+			emit(fmt.Sprintf("asm %s %s", h, chunksToken(segment(stream, []int{1 + rng.Intn(len(stream)-1)}))))
+			emit(fmt.Sprintf("asm %s %s", h, chunksToken(segment(stream, []int{12 * (1 + rng.Intn(k-1))}))))
+		}
+	}
 	for i := 0; i < count/40+4; i++ {
 		if !mine(i, shard, nshards) {
 			continue
@@ -269,6 +285,30 @@ func genC16(tier string, rng *rand.Rand, shard, nshards int, emit emitter) {
 				f = mbapFrame(tidv(rng), u8(rng), append([]byte{byte(fc)}, rbytes(rng, 4)...))
 			}
 			emit(fmt.Sprintf("asm %s %s", h, hx(f)))
+		}
+	}
+	// complete frames that are longer than any legal request but fit one read (MBAP length 250..294): an unsupported
+	// function with a long body, a supported one followed by padding
+	for _, L := range []int{250, 252, 253, 254, 255, 256, 257, 260, 270, 280, 290, 293} {
+		for _, fc := range []int{0x2b, 0x64, 7, 8, 3, 1, 6, 16, 127} {
+			i++
+			if !mine(i, shard, nshards) {
+				continue
+			}
+			var pdu []byte
+			if isSupported(fc) {
+				pdu = validRequestPDU(rng, fc)
+				if len(pdu) < L-1 {
+					pdu = append(pdu, rbytes(rng, L-1-len(pdu))...)
+				}
+			} else {
+				pdu = append([]byte{byte(fc)}, rbytes(rng, L-2)...)
+			}
+			f := mbapFrame(tidv(rng), u8(rng), pdu)
+			h := []string{"dev", "typed", "generic", "mix"}[i%4]
+			emit(fmt.Sprintf("asm %s %s", h, hx(f)))
+			emit(fmt.Sprintf("asm %s %s", h, chunksToken(segment(append(append([]byte{}, f...), serverFrame(rng, 0)...), []int{len(f)}))))
+			emit(fmt.Sprintf("asm %s %s", h, chunksToken(segment(f, []int{1 + rng.Intn(len(f)-1)}))))
 		}
 	}
 	for k := 0; k < count; k++ {
